@@ -62,7 +62,16 @@ UNITS = [
 # the members that hand the coroutines to the scheduler are specified together with the ready queue (C05) and are part of this property too
 import importlib.util as _ilu, os as _os
 _s = _ilu.spec_from_file_location('c05_units', _os.path.join(_os.path.dirname(_os.path.dirname(_os.path.abspath(__file__))), 'C05', 'units.py')); _m = _ilu.module_from_spec(_s); _s.loader.exec_module(_m)
-UNITS += [u for u in _m.UNITS if u['name'] in ('suspend_now', 'clear', 'dtor', 'await_suspend', 'suspend_now_bounded', 'await_suspend_bounded')]
+import copy as _copy
+for _u in _m.UNITS:
+    if _u['name'] in ('clear', 'dtor'):
+        UNITS.append(_u)
+    elif _u['name'] in ('suspend_now', 'await_suspend'):
+        # unbounded, but position-wise (queue / resume order = C05): for C06 ("exactly once", no order) a failure here is not a violation
+        UNITS.append(dict(_copy.deepcopy(_u), on_fail='undecided', on_fail_note='position-wise contract of C05; C06 itself is decided order-free by the *_bounded sibling up to 5 handles'))
+    elif _u['name'] in ('suspend_now_bounded', 'await_suspend_bounded'):
+        # order-free accounting of an arbitrary handle value: decides C06 for points of <= 5 handles
+        UNITS.append(dict(_copy.deepcopy(_u), defines=list(_u['defines']) + ['CV_NO_ORDER 1']))
 
 META = dict(
     level='proof',
